@@ -152,7 +152,7 @@ def prove(facts, fn, P, INV, N, square=False, cv=None):
     wm = _models(events)
     if cv is not None:
         wm = _loop_models(wm)
-    ex = WordEngine(facts, fn.unit, wm, env={"N": N}, max_paths=10, max_depth=8, inline_limit=(2000 if cv is not None else 200), max_visits=(4 * N * N + 16 if cv is not None else 2), const_value=cv)
+    ex = WordEngine(facts, fn.unit, wm, env={"N": N}, max_paths=10, max_depth=8, inline_limit=(20000 if cv is not None else 200), max_visits=(4 * N * N + 16 if cv is not None else 2), const_value=cv)
 
     def big(prefix):
         return SX.Obj(adt="BigInt", fields={0: SX.Obj(adt="array", fields={i: Q.var("%s%d" % (prefix, i)) for i in range(N)})})
@@ -267,7 +267,7 @@ def prove_reduce(facts, fn, P, INV, N, cv):
     """into_bigint (Montgomery reduction of a single element): OUT * W^N = A + M*P - D, dropped words zero"""
     from rules.c15 import WordEngine, _loop_models
     wm = _loop_models(_models([]))
-    ex = WordEngine(facts, fn.unit, wm, env={"N": N}, max_paths=10, max_depth=8, inline_limit=2000, max_visits=4 * N * N + 16, const_value=cv)
+    ex = WordEngine(facts, fn.unit, wm, env={"N": N}, max_paths=10, max_depth=8, inline_limit=20000, max_visits=4 * N * N + 16, const_value=cv)
     a = SX.Obj(adt="Fp", fields={0: SX.Obj(adt="BigInt", fields={0: SX.Obj(adt="array", fields={i: Q.var("a%d" % i) for i in range(N)})})})
     try:
         paths = [p for p in ex.run(fn, [a]) if "panic" not in p.flags]
